@@ -824,6 +824,16 @@ def signature_for(t, got, exp_kind):
 
 # ------------------------------------------------------------------ the check
 def run(ctx):
+    # --- history relations (coordinator): an aggregate leaves the array it was applied to unchanged, and lazy
+    #     values are accepted on either side of `..`
+    _items = []
+    for _f in ("median", "sum", "prod", "mean", "min", "max", "size"):
+        _items.append((["a = {3, 1, 2, 5}", "m = %s(a)" % _f, "a"], "A:[I:3;I:1;I:2;I:5]", "%s(a) leaves a unchanged" % _f))
+        _items.append((["a = {3 m, 100 cm, 2 m}", "m = %s(a)" % _f, "{x : x in a}"] if _f not in ("prod",) else ["a = {3, 1, 2}", "m = prod(a)", "{x*y : x in a, y in {10, 20, 30}}"],
+                       "A:[Q:I:3|0,1,0,0,0,0,0,0;Q:I:1|0,1,0,0,0,0,0,0;Q:I:2|0,1,0,0,0,0,0,0]" if _f not in ("prod",) else "A:[I:30;I:20;I:60]", "%s(a) leaves a unchanged (comprehension over a)" % _f))
+    _items += [(["2!..4"], "A:[I:2;I:3;I:4]", "lazy lower bound"), (["sum(3!..10)"], "I:40", "lazy lower bound"), (["4!..3"], "A:[]", "lazy lower bound above the upper bound"),
+               (["1..3!"], "A:[I:1;I:2;I:3;I:4;I:5;I:6]", "lazy upper bound"), (["3!..C(5,2)"], "A:[I:6;I:7;I:8;I:9;I:10]", "lazy bounds")]
+    C.expect_sessions(ctx["report"], ctx["rundir"], "C12", _items)
     rep, tier, seed = ctx["report"], ctx["tier"], ctx["seed"]
     rng = random.Random(seed * 65537 + 12)
     t0 = time.time()
